@@ -104,10 +104,10 @@ def accepts(crit, v):
     if k == 'emptytext':
         # a text like any other under a numeric criterion (never a number: only <> accepts it); under text criteria and
         # patterns the statement is silent about the empty text
-        if form in ('num', 'eq-num', 'op-num', 'amp-num', 'text-num'):
+        if form in ('num', 'eq-num', 'op-num', 'amp-num', 'text-num', 'join-num'):
             return crit.get('op', '=') == '<>'
         raise Skip('empty text under a text criterion')
-    if form in ('num', 'eq-num', 'op-num', 'amp-num', 'text-num'):
+    if form in ('num', 'eq-num', 'op-num', 'amp-num', 'text-num', 'join-num'):
         if k == 'blank':
             raise Skip('blank under numeric criterion')
         if k == 'text':
@@ -121,7 +121,7 @@ def accepts(crit, v):
         if k != 'num':
             return op == '<>'
         return {'=': v == n, '<>': v != n, '<': v < n, '<=': v <= n, '>': v > n, '>=': v >= n}[op]
-    if form in ('text', 'eq-text', 'ne-text'):
+    if form in ('text', 'eq-text', 'ne-text', 'join-text'):
         t = crit['value']
         eq = k == 'text' and v.lower() == t.lower()
         return (not eq) if form == 'ne-text' else eq
@@ -156,6 +156,11 @@ def crit_text(crit, cellref=None):
         return f'"{crit["op"]}{v!r}"'
     if form == 'amp-num':
         return f'"{crit["op"]}"&{cellref}'
+    if form == 'join-num':
+        # the digits of the number are split between the literal and a cell: ">2"&H1 with H1 = 7 is > 27
+        return f'"{crit["op"]}{crit["head"]}"&{cellref}'
+    if form == 'join-text':
+        return f'"{crit["head"]}"&{cellref}'
     if form == 'eq-text':
         return f'"={v}"'
     if form == 'ne-text':
@@ -217,7 +222,9 @@ def build(spec):
         for p in pairs:
             cr = p['crit']
             ref = None
-            if cr.get('via') == 'cell' or cr['form'] == 'amp-num':
+            if cr['form'] in ('join-num', 'join-text'):
+                ref = crit_cell(cr['tail'])
+            elif cr.get('via') == 'cell' or cr['form'] == 'amp-num':
                 ref = crit_cell(cr['value'])
             ptexts.append((rng(p['col']), crit_text(cr, ref)))
         mis = fs.get('misaligned')
@@ -372,12 +379,16 @@ def strategy():
                             {'form': 'amp-num', 'op': draw(st.sampled_from(['>', '<', '>=', '<=', '<>'])), 'value': n}]
                 choices += [{'form': 'op-num', 'op': draw(st.sampled_from(['>', '<', '>=', '<=', '<>'])), 'value': n},
                             {'form': 'eq-num', 'value': n}, {'form': 'text-num', 'value': n, 'plus': draw(st.booleans())},
+                            (lambda h_, t_: {'form': 'join-num', 'op': draw(st.sampled_from(['>', '<', '>=', '<=', '<>', '='])), 'head': h_, 'tail': t_,
+                                             'value': int(f'{h_}{t_}')})(draw(st.integers(1, 9)), draw(st.integers(0, 9))),
                             {'form': 'amp-num', 'op': draw(st.sampled_from(['>', '<', '>=', '<=', '<>'])), 'value': n}]
             if fl in ('text', 'mixed', 'text+blank'):
                 t = draw(st.one_of(st.sampled_from(present_txt) if present_txt else word, word))
                 t = t.replace('?', 'q').replace('*', 'q')
                 via = draw(st.sampled_from(['lit', 'lit', 'cell']))
                 choices += [{'form': 'text', 'value': t, 'via': via}] * 3
+                if len(t) >= 2 and '~' not in t:
+                    choices += [{'form': 'join-text', 'head': t[:1], 'tail': t[1:], 'value': t}] * 2
                 choices += [{'form': 'text', 'value': t, 'via': via}, {'form': 'ne-text', 'value': t},
                             {'form': 'eq-text', 'value': t}, {'form': 'pattern', 'value': draw(patterns)},
                             {'form': 'pattern', 'value': draw(patterns)}]
